@@ -64,6 +64,13 @@ class IOOpsMixin:
             self._fill_results[(client, i)] = outcome
             if not self._injected_now():
                 self._fill_compare(client, i, op, outcome, {})
+                if op.get("expect_ok") and src is None and not op.get("float_copy"):
+                    # the generator wrote this table sufficient for, and consistent with, its system: the command must produce a table
+                    if "O-round" in self.oracles:
+                        self.verdict("O-round", "C17", client, i, f"`cij fill -s {op['system']}` produced no table for a sufficient, consistent static table: "
+                                     f"{type(e).__name__}: {str(e)[:120]}")
+                    if "O-env" in self.oracles:
+                        self.verdict("O-env", "C09", client, i, f"`cij fill -s {op['system']}` refused a sufficient, consistent table: {type(e).__name__}: {str(e)[:120]}")
             raise
         out = self.stdout._local.buf.getvalue()
         try:
@@ -254,6 +261,8 @@ class IOOpsMixin:
                     self.verdict("O-env", "C09", client, i, f"fill refused ({str(e)[:60]}) although the flag that switches off the {op['must_not_refuse']} refusal was given")
                 elif op.get("must_refuse"):
                     self.probe("fill_must_refuse_" + op["must_refuse"])
+                elif op.get("expect_ok") and isinstance(op["target"], str) and not self._injected_now():
+                    self.verdict("O-env", "C09", client, i, f"fill refused a sufficient, consistent table (system {op['target']}): {str(e)[:120]}")
             self._fill_compare(client, i, op, outcome, inputs)
             raise
         except Exception as e:
@@ -366,7 +375,13 @@ class IOOpsMixin:
             path = os.path.join(self._home_of(client), op["path"])
             m = self.disk.get(os.path.relpath(path, self.root))
             truth, prec = (m["data"] if m and m.get("state") == "ok" and m.get("kind") == "energy" else None), "written"
-        data = read_energy(path if op.get("abs", True) else os.path.relpath(path, self._cwd_of(client)))
+        try:
+            data = read_energy(path if op.get("abs", True) else os.path.relpath(path, self._cwd_of(client)))
+        except Exception as e:
+            if "O-round" in self.oracles and truth is not None and not self._injected_now():
+                self.verdict("O-round", "C17", client, i, ("read_energy cannot read back the file write_energy wrote" if prec else "read_energy cannot read a well-formed phonon file")
+                             + f" ({op.get('path') or 'input file'}): {type(e).__name__}: {str(e)[:120]}")
+            raise
         if "O-round" in self.oracles and truth is not None:
             if prec is None:
                 oracles_io.check_qha_input(self, client, i, data, truth, "read_energy(input file)")
@@ -381,7 +396,12 @@ class IOOpsMixin:
     def op_io_read_elast(self, client, i, op):
         from cij.io.traditional.elast_dat import read_elast_data
         path = self._static_path(client)
-        data = read_elast_data(path if op.get("abs", True) else os.path.relpath(path, self._cwd_of(client)))
+        try:
+            data = read_elast_data(path if op.get("abs", True) else os.path.relpath(path, self._cwd_of(client)))
+        except Exception as e:
+            if "O-round" in self.oracles and not self._injected_now():
+                self.verdict("O-round", "C17", client, i, f"read_elast_data cannot read a well-formed static table: {type(e).__name__}: {str(e)[:120]}")
+            raise
         if "O-round" in self.oracles:
             oracles_io.check_elast_data(self, client, i, data, self.sc["worlds"][client]["static"], "read_elast_data(input file)")
         rep = repr((data.vref, data.nv, data.cellmass, [(v.volume, [("%d%d" % k.v, x) for k, x in v.static_elastic_modulus.items()]) for v in data.volumes], data.lattice_parmeters))
@@ -424,7 +444,13 @@ class IOOpsMixin:
         if op.get("hide_header"):
             args += ["-h"]
         truths = {v: self._table_truth(client, v) for v in op["variables"]} if "O-extract" in self.oracles else {}
-        main(args=args, standalone_mode=False)
+        try:
+            main(args=args, standalone_mode=False)
+        except Exception as e:
+            if "O-extract" in self.oracles and truths and all(t is not None for t in truths.values()) and not self._injected_now():
+                self.verdict("O-extract", "C19", client, i, f"extract failed although every requested variable has exactly one intact table in the working directory: "
+                             f"{type(e).__name__}: {str(e)[:120]}")
+            raise
         out = self.stdout._local.buf.getvalue()
         if "O-extract" in self.oracles:
             self._check_extract(client, i, op, out, truths)
@@ -496,7 +522,13 @@ class IOOpsMixin:
             args += ["--t-col", op["pname"], "--p-col", op["tname"]]      # sic: per the help text --t-col names the pressure column
             self.probe("geotherm_custom_column_names")
         truths = {v: self._table_truth(client, v) for v in op["variables"]} if "O-extract" in self.oracles else {}
-        main(args=args, standalone_mode=False)
+        try:
+            main(args=args, standalone_mode=False)
+        except Exception as e:
+            if "O-extract" in self.oracles and truths and all(t is not None for t in truths.values()) and not self._injected_now():
+                self.verdict("O-extract", "C19", client, i, f"extract-geotherm failed although every requested variable has exactly one intact table in the working directory: "
+                             f"{type(e).__name__}: {str(e)[:120]}")
+            raise
         out = self.stdout._local.buf.getvalue()
         if "O-extract" in self.oracles:
             self._check_geotherm(client, i, op, out, truths)
